@@ -120,3 +120,11 @@ func VerifC10shTokens(text string) (tokens []VerifC10shToken, rest string, panic
 	}
 	return
 }
+
+// VerifC10shSplit is the real splitIntoShellTokens (shell.go), without a diagnostics sink.
+func VerifC10shSplit(text string) (tokens []string, rest string, panicked string) {
+	panicked = VerifPanic(func() {
+		tokens, rest = splitIntoShellTokens(nil, text)
+	})
+	return
+}
